@@ -116,6 +116,10 @@ class User(object):
     def __repr__(self): return 'User()'
 
 
+class SubUser(User):                      # a getter registered for User applies to instances of its subclasses too
+    def __repr__(self): return 'SubUser()'
+
+
 def setup():
     global db, A, A2, B, core
     if db is not None: return
@@ -228,7 +232,7 @@ def user_groups_of(userkind, g_any, g_user):
     ug = {'anybody'}
     if userkind != 'none':
         ug |= set(g_any)
-        if userkind == 'plain': ug |= set(g_user)
+        if userkind in ('plain', 'sub'): ug |= set(g_user)
     return ug
 
 
@@ -388,7 +392,7 @@ def ask(rules, userkind, g_any, g_user, roles, labels, kinds, queries=QUERIES, t
     can = _can()
 
     def body(o, first):
-        user = None if userkind == 'none' else User() if userkind == 'plain' else o[userkind]
+        user = None if userkind == 'none' else User() if userkind == 'plain' else SubUser() if userkind == 'sub' else o[userkind]
         tgt = {'entity': ENT, 'attr': ATTR, 'object': o}
         pairs = [(q, k, n, tgt[k][n]) for q in queries for k in kinds for n in KIND_NAMES[k]]
         got = {}
@@ -583,13 +587,13 @@ def object_exclusions_rest(e1: int, m1: bool, x1: int, e2: int, m2: bool, x2: in
     return ok(_object_excl(True, e1, m1, x1, e2, m2, x2))
 
 
-USERKIND_T = ('none', 'plain', 'a', 'b')
+USERKIND_T = ('none', 'plain', 'a', 'b', 'sub')
 ROLE_T = ((), ('self',), ('r',), ('r', 'self'))
 
 
 def object_userkinds(uk: int, rr: int, ur: bool, rg: bool, ga: bool, gu: bool) -> bool:
     """
-    pre: 0 <= uk < 4 and 0 <= rr < 4
+    pre: 0 <= uk < 5 and 0 <= rr < 4
     post: _
     """
     # who asks: nobody (None), a plain User object, the object a itself, the object b itself (role 'self' on itself;
@@ -603,11 +607,11 @@ def object_userkinds(uk: int, rr: int, ur: bool, rg: bool, ga: bool, gu: bool) -
 # ---- names: subset semantics of groups / roles / labels, one rule, two names, every getter form
 def groups(rg: int, ga: int, gu: int, uk: int) -> bool:
     """
-    pre: 0 <= rg < 4 and 0 <= ga < 4 and 0 <= gu < 4 and 0 <= uk < 3
+    pre: 0 <= rg < 4 and 0 <= ga < 4 and 0 <= gu < 4 and 0 <= uk < 4
     post: _
     """
     rules = [rule('view', ('A', 'B'), pick(NAMES2_T, rg))]
-    return ok(check(rules, ('entity', 'attr', 'object'), userkind=pick(USERKIND_T[:3], uk), g_any=pick(NAMES2_T, ga),
+    return ok(check(rules, ('entity', 'attr', 'object'), userkind=pick(('none', 'plain', 'a', 'sub'), uk), g_any=pick(NAMES2_T, ga),
                     g_user=pick(NAMES2_T, gu), queries=('view',), trace_decl=True))
 
 
@@ -687,6 +691,56 @@ def _to_json(rest, sc, e1, m1, x1, e2, m2, x2):
         return all(g == want for g in got)
 
 
+def _to_json_rl(sc, use_label, fa, fa2, fb, grp):
+    """to_json with a rule that selects by role or by label: objects reached through include= are subject to the same per-object
+    check as the objects passed in"""
+    global NPATHS
+    NPATHS += 1
+    scen = pick(SCEN_T, sc)
+    sel = dict(labels=('l',)) if use_label else dict(roles=('r',))
+    rules = [rule('view', ('A', 'B'), ('g1',) if grp else (), **sel)]
+    with _untraced():
+        if not concrete((rules, scen)): raise RuntimeError('symbolic value left in the decoded declarations: %s' % BAD)
+        has = {'a': fa, 'a2': fa2, 'b': fb}
+        ug = user_groups_of('plain', (), ('g1',))
+        roles = {o: (set() if use_label or not has[o] else {'r'}) for o in OBJ_NAMES}
+        labels = {o: ({'l'} if use_label and has[o] else set()) for o in OBJ_NAMES}
+        viewable = {n: ref_object(rules, ug, roles, labels, 'view', n) for n in OBJ_NAMES}
+        want_error = not all(viewable[n] for n in EMITTED[scen])
+        set_context((), ('g1',), {o: tuple(sorted(v)) for o, v in roles.items()}, {o: tuple(sorted(v)) for o, v in labels.items()})
+
+        def body(o, first):
+            core.set_current_user(User())
+            try:
+                if scen == 'a': data, inc = [o['a']], ()
+                elif scen == 'a+b': data, inc = [o['a']], (A.b,)
+                elif scen == 'b+a_set': data, inc = {'x': o['b']}, (B.a_set,)
+                else: data, inc = [o['a2'], o['b']], ()
+                try:
+                    with (_traced() if first else _Null()):
+                        text = db.to_json(data, include=inc, with_schema=False)
+                except core.PermissionError:
+                    return 'PermissionError'
+                objs = json.loads(text)['objects']
+                return sorted((cls, pk) for cls, d in objs.items() for pk in d)
+            finally:
+                core.set_current_user(None)
+        want = 'PermissionError' if want_error else sorted(({'a': 'A', 'a2': 'A2', 'b': 'B'}[n], {'a': '1', 'a2': '2', 'b': '1'}[n]) for n in EMITTED[scen])
+        got = both_orders(rules, body)
+        LAST.clear()
+        LAST.update(rules=rules, scenario=scen, want=want, got=got, viewable=viewable)
+        return all(g == want for g in got)
+
+
+def to_json_roles_labels(sc: int, use_label: bool, fa: bool, fa2: bool, fb: bool, grp: bool) -> bool:
+    """
+    pre: 0 <= sc < 4
+    post: _
+    """
+    use_label, fa, fa2, fb, grp = bool(use_label), bool(fa), bool(fa2), bool(fb), bool(grp)
+    return ok(_to_json_rl(sc, True if use_label else False, True if fa else False, True if fa2 else False, True if fb else False, True if grp else False))
+
+
 N_XE_JSON = 4 if THOROUGH else 3
 N_E_JSON = 5 if THOROUGH else 3       # second rule: entity lists ESET_T[1:N_E_JSON]
 
@@ -754,7 +808,7 @@ def schema(e1: int, m1: bool, x1: int, a1: int, e2: int, a2: int) -> bool:
 
 HARNESSES = (['entity_p1_view', 'entity_p1_edit'] + ATTR_HARNESSES + ['attr_rule_order'] +
              ['object_conditions', 'object_exclusions', 'object_exclusions_rest', 'object_userkinds', 'groups', 'roles', 'labels',
-              'permissions', 'to_json_objects', 'to_json_objects_rest', 'schema'])
+              'permissions', 'to_json_objects', 'to_json_objects_rest', 'to_json_roles_labels', 'schema'])
 
 
 # ------------------------------------------------------------------------------------------- classification of findings
